@@ -5,7 +5,7 @@ K: the extracted concrete Coq models (Xbt/Dynar.v: data/used/size with the doubl
 O: the specification the Coq theorems refine to — a plain list / a finite map — evaluated here on Python list/dict;
    an implementation answer that differs from it violates the property.  Dict enumerations are compared as sorted sets
    of bindings (the order of a hash table is not constrained)."""
-import json
+import json, os
 import fw
 
 
@@ -32,7 +32,7 @@ def gen_dynar(rng, maxsteps):
         elif r < 0.44:
             ops.append((3, val, 0)); ln += 1
         elif r < 0.56:
-            ops.append((4, rng.choice([0, ln, rng.randint(0, ln)]), val)); ln += 1   # idx <= length (precondition)
+            ops.append((4, ln + rng.randint(1, 4) if bad else rng.choice([0, ln, rng.randint(0, ln)]), val)); ln += 1
         elif r < 0.66:
             if ln == 0 and not bad:
                 continue
@@ -113,6 +113,7 @@ DYNAR_CORPUS = [
     [0, 3, 0, 0, 1, 0, 3, 7, 0, 4, 1, 9, 7, 6, 5, 10, 0, 0, 1, 0, 0, 5, 0, 0, 2, 0, 0, 6, 1, 0, 12, 0, 0],
     [1, 0, 0],                                      # pop on an empty dynar: xbt_assert
     [0, 1, 0, 6, 1, 0],                             # get out of bounds
+    [0, 1, 0, 4, 5, 9, 8, 0, 0, 12, 0, 0],          # insert_at beyond the end (pinned code: length 2, contents [1, 0])
     [7, 40, 5, 8, 0, 0, 12, 0, 0, 5, 40, 0, 5, 39, 0, 8, 0, 0],   # growth by set_as, zero filled
     [0, 5, 1, 0, 6, 1, 1, 0, 1, 1, 0, 1, 8, 0, 0, 3, 9, 0, 2, 0, 0, 8, 0, 0],
     [4, 0, 1, 4, 0, 2, 4, 1, 3, 4, 3, 4, 12, 0, 1, 10, 0, 0, 12, 0, 0, 9, 3, 0, 9, 8, 0, 11, 0, 0, 12, 0, 0, 0, 1, 0],
@@ -232,7 +233,11 @@ DICT_CORPUS = [
 def run(ctx):
     ctx.simgrid(["simgrid"])
     ctx.prove()
-    drv = fw.build_harness("xbt2_c50_drv")
+    # VERIF_C50_INTERPOSE=1 compiles REPO's dynar.cpp/dict.cpp into the driver itself (they then take precedence over the
+    # library's copies): lets a patched source tree be tested without rebuilding libsimgrid.  Not used by bin/check runs.
+    inter = ["-std=gnu++20"] + [os.path.join(fw.REPO, "src/xbt", f) for f in ("dynar.cpp", "dict.cpp")] \
+        + ["-x", "c", os.path.join(fw.REPO, "src/xbt/dict_elm.c"), "-x", "none"] if os.environ.get("VERIF_C50_INTERPOSE") else None
+    drv = fw.build_harness("xbt2_c50_drv", extra=inter)
     ctx.cov["rule"] = ("dynar: histories of 1..200 operations (push/pop/shift/unshift/insert_at/remove_at/get/set_as with growth/"
                        "length/member/sort/reset/foreach|map, both copy and pointer API variants), 0.4% of the operations outside "
                        "their domain (xbt_assert expected); dict: 1..200 operations (set/get/remove/length/foreach, three API "
@@ -297,8 +302,7 @@ def run(ctx):
                     ctx.mismatch("correspondence Dict.v / dict.cpp", "ops %s...: model %s, implementation %s" % (ops[:12], str(mo)[:300], str(i)[:300]), case)
     ctx.cov["input_distribution"] = dist
     ctx.assumptions += [
-        "dynar of scalars (long elements, no free_f); xbt_dynar_insert_at is called with idx <= length (the C code does not check "
-        "the upper bound: beyond it, it writes outside the used part - outside the allocation when idx >= size)",
+        "dynar of scalars (long elements, no free_f); indices are non-negative and fit in an int",
         "dict keys are NUL-free byte strings of 7-bit characters; values are non-null; the cached hash_code of an element is the hash "
         "of its key; no insertion/removal while a cursor is open (documented restriction of dict_cursor.c)",
         "memory management (realloc/mallocator/free_f) is not modelled; fresh cells hold an arbitrary value (theorems quantify over it)",
@@ -316,7 +320,8 @@ META = {
             "ANY hash function and key type). The extracted concrete models are run against the real xbt_dynar_*/xbt_dict_* API "
             "on generated histories (dict enumerations compared as sorted sets); every API answer is judged against the list/map "
             "specification.",
-    "note": "fill (number of used cells) is modelled as the C code updates it but its exactness is not proved - it only decides when "
+    "note": "Defect found and repaired (fix: commit): xbt_dynar_insert_at beyond the end wrote out of bounds instead of being "
+            "rejected. fill (number of used cells) is modelled as the C code updates it but its exactness is not proved - it only decides when "
             "the table is doubled, which the refinement does not depend on. The cursor is modelled as the enumeration it produces "
             "(table order), not step by step. Not modelled: memory management, free_f callbacks, dynars of non-scalar elements.",
     "technique": "Coq refinement proofs (data refinement to list / finite map, Section-quantified hash) + extracted-model "
